@@ -326,6 +326,7 @@ func GenTypes(t *rapid.T, o *Opts) *Spec {
 	module := Module
 	root := &Pkg{Name: rootName, Path: module + "/" + rootName}
 	subAtModuleRoot := false
+	var userTime *tinfo
 	if o.ShortModule {
 		switch rapid.IntRange(0, 6).Draw(t, "moduleForm") {
 		case 3:
@@ -375,6 +376,9 @@ func GenTypes(t *rapid.T, o *Opts) *Spec {
 					o.class("spelling:short_package_name")
 				}
 			}
+			if o.StdNamedPkgs && rapid.IntRange(0, 7).Draw(t, "stdNamedPkg") == 0 {
+				sn = "time"
+			}
 			dup, sameName := false, 0
 			for _, p := range g.spec.Pkgs {
 				if p.Name == sn {
@@ -409,10 +413,21 @@ func GenTypes(t *rapid.T, o *Opts) *Spec {
 			// insert after root so that later subs can be imported by earlier ones? keep simple: subs do not import each other
 			g.spec.Pkgs = append(g.spec.Pkgs, sp)
 			g.fillPackage(sp, sp.Files[0], sp.Files[0], rapid.IntRange(1, 4).Draw(t, "nSubDecls"), false)
+			if sn == "time" {
+				// a user package that is itself named time, with a named type over the standard time.Time
+				name := g.freshName(sp, "userTimeName", true) + "Stamp"
+				g.used(sp)[name] = true
+				userTime = g.newDecl(sp, sp.Files[0], &Decl{Kind: KNamed, Name: name, Type: Std("time", "Time"), TimeLike: true}, &tinfo{cat: "time"})
+				o.class("pkg:user_package_named_time")
+			}
 		}
 	}
 	n := rapid.IntRange(o.MinDecls, o.MaxDecls).Draw(t, "nDecls")
 	g.fillPackage(root, root.Files[0], root.Files[1], n, true)
+	if userTime != nil {
+		h := &Decl{Kind: KStruct, Name: g.freshName(root, "userTimeHolder", true), Fields: []*Field{{Name: "At", Type: g.refTo(root, userTime)}, {Name: "N", Type: Basic("int")}}}
+		g.newDecl(root, root.Files[0], h, &tinfo{cat: "struct"})
+	}
 
 	if o.Unions == 2 {
 		has := false
